@@ -451,6 +451,20 @@ def corr(ctx, drv):
                     msgs.append(f"lattice differs: impl {np.concatenate([r.zero, r.a, r.b]).tolist()} model {v.tolist()}")
         ctx.corr_case("fastmatch", p, msgs, nontrivial=bool((p["kind"] > 0).any()) and k % 4 != 0)
         ctx.count("model_" + mo.split()[0])
+    # min_match 0 / 1 with nothing to match (theorem nothing_matched_invalid): model and implementation both give the invalid match
+    for p in [q_ for q_ in adversarial(rng) if "min_match=" in q_.get("what", "")]:
+        line = (f"fastmatch {rat(p['tol'])} {rat(p['min_weight'])} {p['min_match']} {rats(p['start_zero'])} "
+                f"{rats(p['start_a'])} {rats(p['start_b'])} " + rats(np.column_stack([np.asarray(p["pts"]).reshape(-1, 2), p["elev"]])))
+        mo = drv.ask(line)
+        msgs = []
+        try:
+            r = call(p)
+            if mo != "invalid" or not is_invalid(r):
+                msgs.append(f"{p['what']}: model {mo[:40]}, implementation {'invalid' if is_invalid(r) else 'a match'}")
+        except Exception as e:      # noqa: BLE001
+            msgs.append(f"{p['what']}: fastmatch raised {type(e).__name__}: {e}; model: {mo[:40]}")
+        ctx.corr_case("fastmatch", p, msgs, nontrivial=True)
+        ctx.count("nothing_to_match")
     # instances of theorem fastmatch_exact_recovery: the compiled model must return the true lattice EXACTLY, the strong node
     # peaks and their true indices; the implementation the same to float accuracy
     for k in range(n // 2):
